@@ -2,14 +2,26 @@
 
 package helper
 
-// VerifStageHook, when set by a verification harness, receives one event for every
-// pipeline stage (goroutine) that is wired, before the goroutine is started.
-var VerifStageHook func(kind string, par int, ins []any, outs []any, extra []int)
+import "sync/atomic"
+
+// VerifStageFunc receives one event for every pipeline stage (goroutine) that is wired.
+type VerifStageFunc func(kind string, par int, ins []any, outs []any, extra []int)
+
+var verifStageHook atomic.Pointer[VerifStageFunc]
+
+// SetVerifStageHook installs (or, with nil, removes) the hook of a verification harness.
+func SetVerifStageHook(f VerifStageFunc) {
+	if f == nil {
+		verifStageHook.Store(nil)
+		return
+	}
+	verifStageHook.Store(&f)
+}
 
 // VerifStage reports the wiring of one pipeline stage: its kind, its integer
 // parameter, the channels it reads from and the channels it writes to.
 func VerifStage(kind string, par int, ins []any, outs []any, extra ...int) {
-	if h := VerifStageHook; h != nil {
-		h(kind, par, ins, outs, extra)
+	if h := verifStageHook.Load(); h != nil {
+		(*h)(kind, par, ins, outs, extra)
 	}
 }
